@@ -24,6 +24,13 @@ func reducerBroadcasted(y tensor.Tensor, x tensor.Tensor, dim int) (o tensor.Ten
 	return o, nil
 }
 
+func copiedIndex(index []tensor.Range) (cidx []tensor.Range) {
+	cidx = make([]tensor.Range, len(index))
+	copy(cidx, index)
+
+	return cidx
+}
+
 func completedIndex(index []tensor.Range, shape []int) (cidx []tensor.Range) {
 	cidx = make([]tensor.Range, len(shape))
 	for i := range cidx {
